@@ -425,7 +425,8 @@ bloc::Value * FilePlugin::executeMethod(
     if (l > 0)
     {
       bloc::Integer n = l;
-      str->reserve(n);
+      /* the request may exceed what can be allocated (std::length_error, bad_alloc): grow while reading */
+      str->reserve(n > BLOC_FILE_BUFSZ ? BLOC_FILE_BUFSZ : n);
       char buf[BLOC_FILE_BUFSZ];
       while (n > 0)
       {
@@ -544,7 +545,8 @@ bloc::Value * FilePlugin::executeMethod(
     if (l > 0)
     {
       bloc::Integer n = l;
-      raw->reserve(n);
+      /* the request may exceed what can be allocated (std::length_error, bad_alloc): grow while reading */
+      raw->reserve(n > BLOC_FILE_BUFSZ ? BLOC_FILE_BUFSZ : n);
       char buf[BLOC_FILE_BUFSZ];
       while (n > 0)
       {
